@@ -49,20 +49,25 @@ type Selector interface {
 }
 
 func BuildStaticWeightList(endpoints []endpoint.Endpoint) []int {
-	var maxRange, totalWeight, totalCapacity int
+	var maxRange, totalWeight int
 	minWeight, maxWeight := math.MaxInt32, math.MinInt32
 	for _, node := range endpoints {
 		if endpoint.WeightType(node.WeightType) != endpoint.EStaticWeight {
 			return nil
 		}
 		weight := int(node.Weight)
-		totalCapacity += weight
 		if maxWeight < weight {
 			maxWeight = weight
 		}
 		if minWeight > weight {
 			minWeight = weight
 		}
+	}
+
+	if maxWeight <= 0 {
+		// no endpoint has a positive static weight: there is nothing to weigh (maxWeight is the
+		// divisor below), the caller falls back to the plain endpoint list
+		return nil
 	}
 
 	if minWeight > 0 {
@@ -79,7 +84,9 @@ func BuildStaticWeightList(endpoints []endpoint.Endpoint) []int {
 
 	var weightToId []pair
 	idToWeight := map[int]int{}
-	staticWeightRouterCache := make([]int, 0, totalCapacity+100)
+	// every endpoint appears at most maxRange times (plus one extra pick when a weight is not positive);
+	// the sum of the raw weights can be negative or far beyond what is ever appended
+	staticWeightRouterCache := make([]int, 0, len(endpoints)*maxRange+1)
 	for idx, node := range endpoints {
 		weight := int(node.Weight) * maxRange / maxWeight
 		if weight > 0 {
